@@ -62,8 +62,46 @@ def q(x):
 # --------------------------------------------------------------------------
 # rendering a configuration into the public API
 # --------------------------------------------------------------------------
-def render(lib, cfg, int_eps=False):
+def table(cfg, name, flavour):
+    """A K x K parameter table as the array handed to the code.  The abstract input is the function
+    (species, species) -> value; memory layout and (for integer values) dtype are rendering choices:
+      "float"   C-contiguous float64
+      "strided" a non-contiguous float64 view (every other row / column of a larger array)
+      "int"     integer dtype, where every value of the table is an integer (else float64)"""
+    K = len(cfg["mroot"])
+    vals = [[cfg[name][a][b] for b in range(K)] for a in range(K)]
+    if flavour == "int" and all(v[1] == 1 for row in vals for v in row):
+        return np.array([[v[0] for v in row] for row in vals], dtype=int)
+    arr = np.array([[q(v) for v in row] for row in vals], dtype=float)
+    if flavour == "strided":
+        big = np.full((2 * K, 2 * K), -7.5)
+        big[::2, ::2] = arr
+        return big[::2, ::2]
+    return arr
+
+
+def flavour_of(cfg):
+    """Rendering flavour of the parameter tables and of the mass values, picked from the content."""
+    h = sum(sum(v) for v in cfg["pos"]) + 3 * len(cfg["pos"]) + sum(cfg["typ"])
+    return ("float", "strided", "int")[h % 3]
+
+
+def mass_map(cfg, flavour="float"):
+    """The mass map species -> mass as a dict written down in the order the specification picked (`morder`;
+    ascending for records that carry none).  Integer masses are plain ints in the "int" flavour."""
+    K = len(cfg["mroot"])
+    order = cfg.get("morder") or list(range(1, K + 1))
+    out = {}
+    for t in order:
+        m = cfg["mroot"][t - 1]
+        num, den = m[0] * m[0], m[1] * m[1]
+        out[int(t)] = (num // den) if (flavour == "int" and num % den == 0) else num / den
+    return out
+
+
+def render(lib, cfg, int_eps=False, flavour=None):
     from PyMatterSim.reader.reader_utils import SingleSnapshot
+    flavour = flavour or flavour_of(cfg)
     S = cfg["S"]
     H = np.array(cfg["H"], dtype=float) / S
     pos = np.array(cfg["pos"], dtype=float) / S
@@ -73,9 +111,9 @@ def render(lib, cfg, int_eps=False):
     bounds = np.array([[0.0, lengths[k]] for k in range(d)])
     snap = SingleSnapshot(timestep=0, nparticle=len(pos), particle_type=np.array(cfg["typ"]), positions=pos,
                           boxlength=lengths, boxbounds=bounds, realbounds=bounds, hmatrix=H)
-    masses = {t + 1: q(cfg["mroot"][t]) ** 2 for t in range(K)}
-    mat = lambda name: np.array([[q(cfg[name][a][b]) for b in range(K)] for a in range(K)], dtype=float)
-    eps = mat("eps")
+    masses = mass_map(cfg, flavour)
+    mat = lambda name: table(cfg, name, flavour)
+    eps = table(cfg, "eps", "float" if flavour == "int" else flavour)
     if int_eps:      # integer-valued energies given as an integer array
         eps = np.array([[cfg["eps"][a][b][0] // cfg["eps"][a][b][1] for b in range(K)] for a in range(K)])
     hm = lib.HessianMatrix(snapshot=snap, masses=masses, epsilons=eps, sigmas=mat("sigma"), r_cuts=mat("rc"),
@@ -110,8 +148,26 @@ def run_code(lib, cfg, tmp, tag="case", saveevecs=True, savehessian=True, int_ep
 
 
 def cfg_view(case):
-    keys = ("dim", "S", "H", "ppp", "pos", "typ", "mroot", "model", "shift", "eps", "sigma", "rc", "n", "A", "alpha")
-    return {k: case[k] for k in keys}
+    keys = ("dim", "S", "H", "ppp", "pos", "typ", "mroot", "morder", "model", "shift", "eps", "sigma", "rc", "n", "A", "alpha")
+    return {k: case[k] for k in keys if k in case}
+
+
+def note_scope(chk, cfg, direction):
+    """Evidence of what was exercised: present/absent pattern of the species table, order of the masses dict."""
+    K = len(cfg["mroot"])
+    pat = chk.extra.setdefault("species_patterns[K:present]", {})
+    key = f"{K}:{''.join(str(t) for t in sorted(set(cfg['typ'])))}"
+    pat[key] = pat.get(key, 0) + 1
+    present = sorted(set(cfg["typ"]))
+    unequal = len({tuple(cfg["mroot"][t - 1]) for t in range(1, K + 1)}) > 1
+    asc = list(cfg.get("morder") or range(1, K + 1)) == list(range(1, K + 1))
+    if unequal and not asc:
+        chk.extra["cases_with_masses_dict_not_in_key_order"] = chk.extra.get("cases_with_masses_dict_not_in_key_order", 0) + 1
+    fl = chk.extra.setdefault("table_renderings", {})
+    fl[flavour_of(cfg)] = fl.get(flavour_of(cfg), 0) + 1
+
+
+ALL_PATTERNS = ("1:1", "2:1", "2:2", "2:12", "3:1", "3:2", "3:3", "3:12", "3:13", "3:23", "3:123")
 
 
 # --------------------------------------------------------------------------
@@ -126,7 +182,56 @@ def block_of(p, dim):
     return p // dim + 1
 
 
-def compare_matrix(chk, case, obs, exp):
+def matrices_equal(obs, exp):
+    scale = float(np.max(np.abs(exp))) if exp.size else 0.0
+    return (obs is not None and obs.shape == exp.shape and bool(np.all(np.isfinite(obs)))
+            and not np.any(np.abs(obs - exp) > 1e-9 + 1e-9 * np.abs(exp) + 1e-13 * scale))
+
+
+def compact_species(cfg):
+    """The same physical model with the species table reduced to the species that occur (relabelled 1..K' in
+    order): an equivalent input, used only to NAME the cause of a mismatch."""
+    present = sorted(set(cfg["typ"]))
+    new = {t: k + 1 for k, t in enumerate(present)}
+    c = dict(cfg)
+    c["typ"] = [new[t] for t in cfg["typ"]]
+    c["mroot"] = [cfg["mroot"][t - 1] for t in present]
+    for name in ("eps", "sigma", "rc"):
+        c[name] = [[cfg[name][a - 1][b - 1] for b in present] for a in present]
+    c["morder"] = [new[t] for t in (cfg.get("morder") or range(1, len(cfg["mroot"]) + 1)) if t in new]
+    return c
+
+
+def name_the_cause(lib, case, cfg, exp, tmp):
+    """Called only after the saved matrix differed from the specification: which rendering choice does the
+    code's answer depend on although the abstract input does not?  Returns a clause or None."""
+    K = len(cfg["mroot"])
+    try:
+        if cfg.get("morder") and list(cfg["morder"]) != list(range(1, K + 1)):
+            r2 = run_code(lib, dict(cfg, morder=list(range(1, K + 1))), tmp, tag="asc")
+            if matrices_equal(np.asarray(r2["matrix"], dtype=float), exp):
+                return "matrix:depends-on-the-order-the-masses-dict-was-written-in"
+        if len(set(cfg["typ"])) < K:
+            r3 = run_code(lib, compact_species(cfg), tmp, tag="compact")
+            if matrices_equal(np.asarray(r3["matrix"], dtype=float), exp):
+                return "matrix:species-index-wrong-when-a-species-of-the-tables-is-absent"
+        if flavour_of(cfg) != "float":
+            hm, ip = render(lib, cfg, flavour="float")
+            out = os.path.join(tmp, "plain")
+            with np.errstate(all="ignore"):
+                hm.diagonalize_hessian(interaction_params=ip, saveevecs=False, savehessian=True, outputfile=out)
+            m4 = np.asarray(np.load(out + ".hessianmatrix.npy"), dtype=float)
+            for suf in (".omega_PR.csv", ".hessianmatrix.npy", ".evecs.npy"):
+                if os.path.exists(out + suf):
+                    os.remove(out + suf)
+            if matrices_equal(m4, exp):
+                return f"matrix:depends-on-array-layout-or-dtype-of-the-tables[{flavour_of(cfg)}]"
+    except Exception:
+        return None
+    return None
+
+
+def compare_matrix(chk, case, obs, exp, clause=None):
     """Entry-wise comparison.  Returns True when equal."""
     dim = case["dim"]
     scale = float(np.max(np.abs(exp))) if exp.size else 0.0
@@ -146,7 +251,8 @@ def compare_matrix(chk, case, obs, exp):
     where = "diagonal-block" if diag_bad and not off_bad else "offdiagonal-block" if off_bad and not diag_bad else "blocks"
     unequal = len({tuple(m) for m in case["mroot"]}) > 1 and len(set(case["typ"])) > 1
     key = "diagonal-block-mass-weighting" if (where == "diagonal-block" and unequal) else None
-    chk.violation(f"matrix:{where}", dict(case_for_replay(case), first_bad_entry=[p + 1, qq + 1],
+    chk.violation(clause or f"matrix:{where}", dict(case_for_replay(case), first_bad_entry=[p + 1, qq + 1],
+                                           masses_dict_order=case.get("morder"), table_rendering=flavour_of(cfg_view(case)),
                                            observed_entry=float(obs[p, qq]), expected_entry=float(exp[p, qq]),
                                            n_bad_entries=int(len(bad)), observed=obs.tolist(), expected=exp.tolist()),
                   finding_key=key)
@@ -284,6 +390,40 @@ def check_session(chk, lib, case, cfg, tmp):
     return True
 
 
+def check_two_objects(chk, lib, prev, cur, tmp):
+    """Two HessianMatrix objects alive at once (each with its own snapshot, mass map and tables), used alternately:
+    current, previous, current.  Objects are independent: every saved matrix is the one of its own configuration."""
+    try:
+        a, ipa = render(lib, prev["cfg"])
+        b, ipb = render(lib, cur["cfg"])
+    except Exception as e:
+        chk.violation(f"raises:{type(e).__name__}", dict(cur["cfg"], error=str(e), call="two objects: construction"))
+        return False
+    for k, (hm, ip, who) in enumerate(((b, ipb, cur), (a, ipa, prev), (b, ipb, cur))):
+        out = os.path.join(tmp, f"two{k}")
+        try:
+            with np.errstate(all="ignore"):
+                hm.diagonalize_hessian(interaction_params=ip, saveevecs=False, savehessian=True, outputfile=out)
+            obs = np.asarray(np.load(out + ".hessianmatrix.npy"), dtype=float)
+        except Exception as e:
+            chk.violation(f"raises:{type(e).__name__}", dict(who["cfg"], error=str(e), call=f"call {k} on two objects used alternately"))
+            return False
+        finally:
+            for suf in (".omega_PR.csv", ".hessianmatrix.npy", ".evecs.npy"):
+                if os.path.exists(out + suf):
+                    os.remove(out + suf)
+        if not matrices_equal(obs, who["exp"]):
+            chk.violation("objects:matrix-depends-on-another-object",
+                          dict(who["cfg"], call_index=k, other_object=(prev if who is cur else cur)["cfg"],
+                               observed=obs.tolist(), expected=who["exp"].tolist()))
+            return False
+    chk.extra["two_object_sessions"] = chk.extra.get("two_object_sessions", 0) + 1
+    return True
+
+
+PREV = {}
+
+
 def replay_case(chk, lib, case, shapes, tmp, extra_paths=False):
     cfg = cfg_view(case)
     dim, N = case["dim"], len(case["pos"])
@@ -307,7 +447,9 @@ def replay_case(chk, lib, case, shapes, tmp, extra_paths=False):
     if res["matrix"] is None:
         chk.violation("outputs:no-matrix-file", case_for_replay(case))
         return
-    ok = compare_matrix(chk, case, np.asarray(res["matrix"], dtype=float), exp)
+    obs = np.asarray(res["matrix"], dtype=float)
+    cause = None if matrices_equal(obs, exp) else name_the_cause(lib, case, cfg, exp, tmp)
+    ok = compare_matrix(chk, case, obs, exp, clause=cause)
     shape = shapes.get((N, dim))
     if shape is None:
         raise common.MachineryError(f"no shape terms for N={N} dim={dim}")
@@ -327,6 +469,11 @@ def replay_case(chk, lib, case, shapes, tmp, extra_paths=False):
             ok = False
     if ok and case.get("calls") and not case["edge"]:
         ok = check_session(chk, lib, case, cfg, tmp)
+    if ok and not case["edge"]:
+        cur = {"cfg": cfg, "exp": exp}
+        if PREV.get("case") is not None:
+            ok = check_two_objects(chk, lib, PREV["case"], cur, tmp)
+        PREV["case"] = cur
     if ok and extra_paths:
         # the save flags: nothing but the csv is written, and it is the same csv; default output name
         try:
@@ -355,6 +502,7 @@ def replay_case(chk, lib, case, shapes, tmp, extra_paths=False):
         cov[key] = cov.get(key, 0) + 1
         if case["edge"]:
             chk.extra["cutoff_boundary_cases_asserted"] = chk.extra.get("cutoff_boundary_cases_asserted", 0) + 1
+        note_scope(chk, cfg, "A")
 
 
 # --------------------------------------------------------------------------
@@ -379,18 +527,29 @@ def gen_records(rng, nrec):
         if rng.random() < 0.4:
             ppp = [1] * d
         pos = [[rng.randint(-10, 70) for _ in range(d)] for _ in range(N)]
-        K = rng.choice([1, 2])
-        typ = [rng.randint(1, K) for _ in range(N)]
-        if K == 2 and len(set(typ)) == 1:
-            typ[0] = 3 - typ[0]
+        # species table of K species of which a random non-empty subset occurs (N >= 3 >= K)
+        K = rng.choice([1, 2, 2, 3, 3])
+        present = [t for t in range(1, K + 1) if rng.random() < 0.6] or [rng.randint(1, K)]
+        typ = [rng.choice(present) for _ in range(N)]
+        for k, t in enumerate(rng.sample(present, len(present))):
+            typ[k] = t                       # every chosen species does occur
+        rng.shuffle(typ)
         roots = [[1, 1], [2, 1], [3, 1], [3, 2], [1, 2], [5, 4]]
-        mroot = [rng.choice(roots) for _ in range(K)]
+        mroot = rng.sample(roots, K)         # unequal masses
+        morder = list(range(1, K + 1))       # the order in which the masses dict is written down
+        how = rng.randint(0, 3)
+        if how == 1:
+            morder.reverse()
+        elif how == 2:
+            morder = morder[1:] + morder[:1]
+        elif how == 3:
+            rng.shuffle(morder)
         model = rng.choice(models)
         sym = lambda f: [[f(min(a, b), max(a, b)) for b in range(K)] for a in range(K)]
         sg = {(a, b): rng.randint(8, 16) for a in range(K) for b in range(a, K)}
         cut = {(a, b): (sg[(a, b)] if model == "harmonic_hertz" else rng.randint(15, 32)) for a in range(K) for b in range(a, K)}
         ee = {(a, b): rng.randint(5, 20) for a in range(K) for b in range(a, K)}
-        rec = {"dim": d, "S": S, "H": H, "ppp": ppp, "pos": pos, "typ": typ, "mroot": mroot, "model": model,
+        rec = {"dim": d, "S": S, "H": H, "ppp": ppp, "pos": pos, "typ": typ, "mroot": mroot, "morder": morder, "model": model,
                "shift": rng.random() < 0.5,
                "eps": sym(lambda a, b: [ee[(a, b)], 10]), "sigma": sym(lambda a, b: [sg[(a, b)], 10]),
                "rc": sym(lambda a, b: [cut[(a, b)], 10]),
@@ -442,6 +601,8 @@ def direction_b(chk, lib, tmp, nrec):
     for idx, clause in rejects:
         rec, res, t = runs[trace[idx]["id"]]
         rejected.add(trace[idx]["id"])
+        if clause.startswith("BadRecord"):
+            raise common.MachineryError(f"the recorder produced a malformed trace record: {json.dumps(rec)}")
         chk.violation("trace:" + clause, dict(rec, direction="B", observed_pattern=t["pattern"],
                                               symmetric=t["symmetric"], finite=t["finite"]))
     printed = {c["id"]: c for c in r.cases if c.get("m") in ("TraceExpect", "TraceTie")}
@@ -463,8 +624,10 @@ def direction_b(chk, lib, tmp, nrec):
         full = dict(rec, m="Hessian", defs=case["defs"], matrix=case["matrix"], pairs=case["pairs"], edge=False,
                     dyadic=False, ix={"B": rid}, trans=case.get("trans") or [], direction="B")
         Hm = np.asarray(res["matrix"], dtype=float)
-        if not compare_matrix(chk, full, Hm, exp):
+        cause = None if matrices_equal(Hm, exp) else name_the_cause(lib, full, rec, exp, tmp)
+        if not compare_matrix(chk, full, Hm, exp, clause=cause):
             continue
+        note_scope(chk, rec, "B")
         if check_outputs(chk, full, res, case["shape"], float(np.max(np.abs(exp), initial=0.0))):
             chk.ok(("B", rid), nontrivial=len(t["pattern"]) > 0)
             chk.extra["entries_compared"] = chk.extra.get("entries_compared", 0) + int(exp.size)
@@ -476,10 +639,21 @@ def direction_b(chk, lib, tmp, nrec):
         allp = [[i + 1, j + 1] for i in range(N) for j in range(i + 1, N)]
         cor = dict(clean[1])
         cor["pattern"] = cor["pattern"][1:] if cor["pattern"] else [allp[0]]
+        # (the three records were each accepted uncorrupted by the run above: a regression of the library cannot
+        #  reach this point with a record the specification rejects; should the corrupted trace nevertheless not
+        #  be rejected as expected, the uncorrupted triple is validated again before the machinery is blamed)
         _, rej = common.validate_trace("TraceHessian", [clean[0], cor, clean[2]], timeout=1800)
         if rej is None or rej[0] != 1 or rej[1] != "InteractingPairSet":
-            raise common.MachineryError(f"corrupt-one-field self-test: expected rejection of record 1 by InteractingPairSet, got {rej}")
-        chk.extra["corrupted_record_rejected"] = True
+            _, rej0 = common.validate_trace("TraceHessian", clean, timeout=1800)
+            if rej0 is not None:
+                chk.extra["corrupted_record_selftest"] = f"skipped: the uncorrupted records are rejected on re-validation ({rej0})"
+                chk.violation("trace:" + str(rej0[1]), dict(clean[rej0[0]], direction="B", note="rejected on re-validation"))
+            else:
+                raise common.MachineryError(f"corrupt-one-field self-test: expected rejection of record 1 by InteractingPairSet, got {rej}")
+        else:
+            chk.extra["corrupted_record_rejected"] = True
+    else:
+        chk.extra["corrupted_record_selftest"] = "skipped: fewer than three records accepted by the specification"
 
 
 # --------------------------------------------------------------------------
@@ -493,6 +667,9 @@ def run(tier, replay=None):
                 "vectors (full periodicity), eigen-residual, omega^2 = eigenvalue and the participation ratio are checked on "
                 "the code's outputs with terms of the spec. B: random decimal configurations, non-zero block pattern "
                 "validated by TraceHessian.tla which prints the expected entries. distinct = configurations with >= 1 interacting pair.")
+    chk.rule += (" Species tables of K <= 3 species of which any non-empty subset occurs (all 11 patterns in every run); the mass map is "
+                 "written down as a dict in the enumeration order the specification picks (ascending, descending, rotated, ...); parameter "
+                 "tables rendered contiguous / strided / integer-typed; two objects alive at once used alternately.")
     chk.assumptions = ["masses are squares of rationals (weights are exact rationals)", "symmetric parameter matrices",
                        "Hertz: cut-off = sigma, alpha > 1; a pair exactly at contact is a tie",
                        "pairs exactly at the cut-off asserted (inclusive) only in the dyadic cell",
@@ -537,9 +714,22 @@ def run(tier, replay=None):
                 if not quick and rd == 0 and dim == 2 and not r.coverage.get("Next"):     # Next == \E k : AddPair(k)
                     raise common.MachineryError(f"coverage: action AddPair never taken ({r.coverage})")
                 for c in cases:
+                    K = len(c["mroot"])
+                    pk = f"{K}:{''.join(str(t) for t in c['present'])}"
+                    if c["m"] == "Hessian":
+                        em = chk.extra.setdefault("emitted_species_patterns", {})
+                        em[pk] = em.get(pk, 0) + 1
+                        if list(c["morder"]) != list(range(1, K + 1)) and len({tuple(m) for m in c["mroot"]}) > 1:
+                            chk.extra["emitted_masses_dict_not_in_key_order"] = chk.extra.get("emitted_masses_dict_not_in_key_order", 0) + 1
                     lead = c["m"] == "Hessian" and bool(c.get("shape", {}).get("N"))
                     replay_case(chk, lib, c, shapes, tmp, extra_paths=lead)
         chk.exhaustive = False
+        # scope facts of the run (sentinels guarantee them): every present/absent pattern of a species table with
+        # K <= 3 was emitted, and mass maps with unequal masses were written down out of key order
+        emitted = chk.extra.get("emitted_species_patterns", {})
+        missing = [p for p in ALL_PATTERNS if not emitted.get(p)]
+        if missing or not chk.extra.get("emitted_masses_dict_not_in_key_order"):
+            raise common.MachineryError(f"MC_Hessian scope: species patterns {missing} not emitted / no mass map out of key order")
         direction_b(chk, lib, tmp, 24 if quick else 300)
     finally:
         shutil.rmtree(tmp, ignore_errors=True)
